@@ -170,9 +170,11 @@ def convert(dt, text):
 
 LONG_NAME = "k" + "x" * 69        # 70 characters: no limit is documented
 KEY_NAMES = {
+    # ('class', 'from': names are names, also when Python reserves them)
     "basic-key": ["alpha", "beta", "a-b", "gamma", "k.x", "delta9",
-                  "x--y", LONG_NAME],
-    "identifier": ["alpha", "Beta", "a_b", "gamma", "Delta9", LONG_NAME],
+                  "x--y", LONG_NAME, "class", "from"],
+    "identifier": ["alpha", "Beta", "a_b", "gamma", "Delta9", LONG_NAME,
+                   "class", "pass"],
     "ipaddr-or-hostname": ["alpha", "host-b", "h1.example", "gamma",
                            "10.0.0.1", "x--y", LONG_NAME],
 }
@@ -186,7 +188,7 @@ BAD_KEYS = {
     "identifier": ["a-b", "1a", "a.b"],
     "ipaddr-or-hostname": ["-x", "999.1.1.1", "a"],
 }
-FIXED_SLOT_NAMES = ["main", "aux", "extra"]
+FIXED_SLOT_NAMES = ["main", "aux", "extra", "import"]
 SECTION_NAMES = ["n1", "n2", "N3", "main", "aux", "alpha", "zz",
                  "Straße", "ΣΊΣΥΦΟΣ", "Maſt", "ÉCOLE",
                  # names may end in (or consist of) slashes: '<t dir//>' is
